@@ -11,7 +11,9 @@
 //! dropped — `translate_sds_to_datalog` calls a fact alive iff event_time + alpha > current_time),
 //! evaluate (only at a time strictly later than the previous evaluation).
 //! Configurations (each an independent search, this is how the check is sharded):
-//! rule set x (alpha1, alpha2) in {2,3}^2 x static graph with 0/1 triple.
+//! rule set x (alpha1, alpha2) in {2,3}^2 x static graph with 0/1 triple x eviction (a listing is
+//! dropped at the tick at which it expires, or one tick later so that the subject is handed a
+//! listed-but-expired fact, which by the statement must not contribute).
 //!
 //! De-duplication. A search state is (window listings, carried SdsWithExpiry, now, "evaluate is
 //! enabled"). Its key is that state *relative to now*: listing ages now - time, carried expiries as
@@ -50,14 +52,15 @@ use std::sync::{Arc, RwLock};
 pub const DEF: PropDef = PropDef {
     id: "C12",
     level: "model_checking",
-    rule: "per configuration (rule set in {copy,join,chain,trans,static} x alpha1,alpha2 in {2,3} x static graph with 0/1 triple) breadth-first search over histories of ops arrive(w,t) [2 windows x 3 triples a-p-b, b-p-c, c-p-a; a listing keeps the latest arrival time], tick [now+=1, listings with time+alpha<=now dropped], evaluate [real incremental_sds_plus with the carried SdsWithExpiry; only at a strictly later time than the previous evaluation] up to depth 6 (quick) / 9 (thorough); states de-duplicated on the full state relative to now (listing ages, carried map with expiry-now, evaluate-enabled); plus a plain tree search without de-duplication to depth 4 / 6; every evaluate compares fact sets and expiries per component with the (max,min) reference fixpoint and the fact sets with naive_sds_plus. evaluations = evaluate transitions executed on the real code; non-trivial = evaluate whose carried map has a fact still alive and whose expected result has a derived (non-seed) fact; distinct = distinct (configuration, relative pre-state)",
+    rule: "per configuration (rule set in {copy, join, chain, trans, transdag, static, wrec} x alpha1,alpha2 in {2,3} x static graph with 0/1 triple x eviction exact/one tick late = 112 configurations, each an independent search) breadth-first search over histories of ops arrive(w,t) [2 windows x 3 triples (cycle a-p-b b-p-c c-p-a, or a-p-b b-p-c a-p-c for transdag/wrec); a listing keeps the latest arrival time], tick [now+=1, listings with time+alpha(+1 if late)<=now dropped], evaluate [real incremental_sds_plus with the SdsWithExpiry carried from the previous evaluate; only at a strictly later time than the previous evaluation] up to depth 6 (quick) / 9 (thorough); states de-duplicated on the full state relative to now (listing ages, complete carried map with expiry-now, evaluate-enabled); plus a plain tree search without any de-duplication to depth 4 / 6; every evaluate compares fact sets and expiries per component with the (max,min) reference fixpoint over the alive annotated facts and the fact sets with the real naive_sds_plus. evaluations = evaluate transitions executed on the real code (BFS + tree); states/transitions = BFS only; non-trivial = BFS evaluate whose carried map has a fact still alive and whose expected result has a derived (non-seed) fact; distinct = distinct (configuration, relative pre-state); outcomes = distinct (configuration, relative result)",
     assumptions: &[
         "universe: windows http://w1/ http://w2/ (alpha 2 or 3), static graph http://sg/ with triple b-k-c or empty, output component http://out/, entities a b c, arrival time = current time, start time 0",
-        "all rule predicates are annotated with one of the SDS component IRIs (a conclusion outside every component is dropped from the carried state by design and is not generated)",
+        "alive <=> event_time + alpha > now (translate_sds_to_datalog); a window may keep an expired listing for one more tick (eviction=late) — the statement speaks about alive facts only, so such a listing must not contribute",
+        "all rule predicates are annotated with an IRI of a declared SDS component (window, static graph or output); facts of undeclared components are not part of the carried state and such rule sets are not generated",
         "strictly increasing evaluation times (two evaluations at the same time are not generated)",
-        "de-duplication assumes the subject's pass/fail is invariant under shifting all times of one call by a constant; partly discharged by the tree search without de-duplication (counters tree_*)",
-        "reference model: harness/src/reference/expiry_fixpoint.rs (Kleene iteration in (max,min)), self-tested on hand-computed cases",
-        "one dictionary with the whole vocabulary pre-encoded in a fixed order; Dictionary.next_id asserted unchanged after every subject call",
+        "de-duplication assumes the subject's pass/fail is invariant under shifting all times of one call by a constant; partly discharged by the tree search without de-duplication (counters tree_*); it cannot cause a false alarm, every reported history is re-executed from scratch",
+        "reference model: harness/src/reference/expiry_fixpoint.rs (Kleene iteration in (max,min)), self-tested on hand-computed cases; it never calls Kolibrie",
+        "one dictionary with the whole vocabulary pre-encoded in a fixed order; Dictionary.next_id asserted unchanged after every subject call; results compared lexically",
     ],
     run,
     replay,
@@ -72,8 +75,11 @@ const SG: &str = "http://sg/";
 const OUT: &str = "http://out/";
 const COMPONENTS: [&str; 4] = ["http://w1/", "http://w2/", "http://sg/", "http://out/"];
 const ENT: [&str; 3] = ["a", "b", "c"];
-/// the three triples of every window alphabet: a-p-b, b-p-c, c-p-a
-const TRIPLES: [(usize, usize); 3] = [(0, 1), (1, 2), (2, 0)];
+/// the three triples of a window alphabet (indices into ENT, local predicate p), chosen per rule set:
+/// a cycle a-p-b, b-p-c, c-p-a (three join pairs, deep recursion) or
+/// a chain with a shortcut a-p-b, b-p-c, a-p-c (a listed fact that is also derivable)
+const CYCLE: [(usize, usize); 3] = [(0, 1), (1, 2), (2, 0)];
+const SHORTCUT: [(usize, usize); 3] = [(0, 1), (1, 2), (0, 2)];
 const STATIC: (&str, &str, &str) = ("b", "k", "c");
 const LOCALS: [&str; 9] = ["p", "k", "cp", "j", "q", "r", "t", "s", "st"];
 
@@ -85,29 +91,42 @@ struct RS {
     conclusion: &'static [A],
 }
 
-const RULESETS: &[(&str, &[RS])] = &[
+const RULESETS: &[(&str, [(usize, usize); 3], &[RS])] = &[
     // copy both windows into the output component (two derivations of one fact: max)
     (
         "copy",
+        CYCLE,
         &[
             RS { premise: &[A(WIN[0], "p", "x", "y")], conclusion: &[A(OUT, "cp", "x", "y")] },
             RS { premise: &[A(WIN[1], "p", "x", "y")], conclusion: &[A(OUT, "cp", "x", "y")] },
         ],
     ),
     // join across the two windows (min)
-    ("join", &[RS { premise: &[A(WIN[0], "p", "x", "y"), A(WIN[1], "p", "y", "z")], conclusion: &[A(OUT, "j", "x", "z")] }]),
+    ("join", CYCLE, &[RS { premise: &[A(WIN[0], "p", "x", "y"), A(WIN[1], "p", "y", "z")], conclusion: &[A(OUT, "j", "x", "z")] }]),
     // chain through the output component: w1 -> q -> r -> (join with w2) j
     (
         "chain",
+        CYCLE,
         &[
             RS { premise: &[A(WIN[0], "p", "x", "y")], conclusion: &[A(OUT, "q", "x", "y")] },
             RS { premise: &[A(OUT, "q", "x", "y")], conclusion: &[A(OUT, "r", "x", "y")] },
             RS { premise: &[A(OUT, "r", "x", "y"), A(WIN[1], "p", "y", "z")], conclusion: &[A(OUT, "j", "x", "z")] },
         ],
     ),
-    // recursive transitive rule over the copies of both windows
+    // recursive transitive rule over the copies of both windows, on the cycle (9 facts, derivations of
+    // depth 2) and on the chain with shortcut (direct edge against the two-step path: max of min)
     (
         "trans",
+        CYCLE,
+        &[
+            RS { premise: &[A(WIN[0], "p", "x", "y")], conclusion: &[A(OUT, "t", "x", "y")] },
+            RS { premise: &[A(WIN[1], "p", "x", "y")], conclusion: &[A(OUT, "t", "x", "y")] },
+            RS { premise: &[A(OUT, "t", "x", "y"), A(OUT, "t", "y", "z")], conclusion: &[A(OUT, "t", "x", "z")] },
+        ],
+    ),
+    (
+        "transdag",
+        SHORTCUT,
         &[
             RS { premise: &[A(WIN[0], "p", "x", "y")], conclusion: &[A(OUT, "t", "x", "y")] },
             RS { premise: &[A(WIN[1], "p", "x", "y")], conclusion: &[A(OUT, "t", "x", "y")] },
@@ -117,10 +136,22 @@ const RULESETS: &[(&str, &[RS])] = &[
     // static premise (infinite expiry), also a fact derived from the static graph alone
     (
         "static",
+        CYCLE,
         &[
             RS { premise: &[A(WIN[0], "p", "x", "y"), A(SG, "k", "y", "z")], conclusion: &[A(OUT, "s", "x", "z")] },
             RS { premise: &[A(WIN[1], "p", "x", "y"), A(SG, "k", "y", "z")], conclusion: &[A(OUT, "s", "x", "z")] },
             RS { premise: &[A(SG, "k", "x", "y")], conclusion: &[A(OUT, "st", "x", "y")] },
+        ],
+    ),
+    // recursion inside a window component: derived facts coincide with stream facts of the same
+    // component (a listed fact can be outlived by a derivation of itself), copied on and joined
+    (
+        "wrec",
+        SHORTCUT,
+        &[
+            RS { premise: &[A(WIN[0], "p", "x", "y"), A(WIN[0], "p", "y", "z")], conclusion: &[A(WIN[0], "p", "x", "z")] },
+            RS { premise: &[A(WIN[0], "p", "x", "y")], conclusion: &[A(OUT, "cp", "x", "y")] },
+            RS { premise: &[A(WIN[0], "p", "x", "y"), A(WIN[1], "p", "y", "z")], conclusion: &[A(OUT, "j", "x", "z")] },
         ],
     ),
 ];
@@ -130,15 +161,22 @@ pub struct Cfg {
     rs: usize,
     alpha: [u64; 2],
     stat: bool,
+    /// false: a listing is dropped by the tick at which it expires (time + alpha <= now);
+    /// true: one tick later (the window evicts lazily; the subject sees a listed, expired fact)
+    late: bool,
 }
 
 fn configs() -> Vec<Cfg> {
+    // rule set innermost: shard i % 16 then gets 7 different rule sets with 7 different
+    // (alpha, static, eviction) combinations, which balances the very unequal search sizes
     let mut v = Vec::new();
-    for rs in 0..RULESETS.len() {
-        for a1 in [2u64, 3] {
-            for a2 in [2u64, 3] {
-                for stat in [false, true] {
-                    v.push(Cfg { rs, alpha: [a1, a2], stat });
+    for a1 in [2u64, 3] {
+        for a2 in [2u64, 3] {
+            for stat in [false, true] {
+                for late in [false, true] {
+                    for rs in 0..RULESETS.len() {
+                        v.push(Cfg { rs, alpha: [a1, a2], stat, late });
+                    }
                 }
             }
         }
@@ -147,7 +185,7 @@ fn configs() -> Vec<Cfg> {
 }
 
 fn cfg_json(c: &Cfg) -> Value {
-    json!({"ruleset": RULESETS[c.rs].0, "alpha": [c.alpha[0], c.alpha[1]], "static": c.stat})
+    json!({"ruleset": RULESETS[c.rs].0, "alpha": [c.alpha[0], c.alpha[1]], "static": c.stat, "evict": if c.late { "late" } else { "exact" }})
 }
 
 fn parse_cfg(v: &Value) -> Option<Cfg> {
@@ -158,7 +196,12 @@ fn parse_cfg(v: &Value) -> Option<Cfg> {
     if alpha.iter().any(|x| *x == 0 || *x > 1000) {
         return None;
     }
-    Some(Cfg { rs, alpha, stat: v["static"].as_bool()? })
+    let late = match v["evict"].as_str()? {
+        "late" => true,
+        "exact" => false,
+        _ => return None,
+    };
+    Some(Cfg { rs, alpha, stat: v["static"].as_bool()?, late })
 }
 
 // ---------------------------------------------------------------- ops and state
@@ -205,7 +248,7 @@ impl St {
         for w in 0..2 {
             for t in 0..3 {
                 if let Some(time) = self.win[w][t] {
-                    if time + cfg.alpha[w] <= self.now {
+                    if time + cfg.alpha[w] + (cfg.late as u64) <= self.now {
                         self.win[w][t] = None;
                     }
                 }
@@ -290,7 +333,7 @@ fn make_env(cfg: Cfg) -> Env {
     let names: Vec<String> = (0..d.next_id).map(|i| d.decode(i).unwrap_or("<undecodable>").to_string()).collect();
     let mut rules = Vec::new();
     let mut ref_rules = Vec::new();
-    for rs in RULESETS[cfg.rs].1 {
+    for rs in RULESETS[cfg.rs].2 {
         let sub_atom = |a: &A, d: &mut Dictionary| (Term::Variable(a.2.to_string()), Term::Constant(d.encode(&format!("{}{}", a.0, a.1))), Term::Variable(a.3.to_string()));
         let ref_atom = |a: &A| (rx::v(a.2), rx::c(&format!("{}{}", a.0, a.1)), rx::v(a.3));
         rules.push(Rule {
@@ -306,6 +349,9 @@ fn make_env(cfg: Cfg) -> Env {
 }
 
 impl Env {
+    fn triples(&self) -> [(usize, usize); 3] {
+        RULESETS[self.cfg.rs].1
+    }
     fn name(&self, id: u32) -> String {
         self.names.get(id as usize).cloned().unwrap_or_else(|| format!("<id {} outside the vocabulary>", id))
     }
@@ -315,7 +361,7 @@ impl Env {
             let mut triples = Vec::new();
             for t in 0..3 {
                 if let Some(time) = st.win[w][t] {
-                    triples.push(WindowedTriple { subject: ENT[TRIPLES[t].0].to_string(), predicate: "p".to_string(), object: ENT[TRIPLES[t].1].to_string(), event_time: time });
+                    triples.push(WindowedTriple { subject: ENT[self.triples()[t].0].to_string(), predicate: "p".to_string(), object: ENT[self.triples()[t].1].to_string(), event_time: time });
                 }
             }
             sds.windows.insert(WIN[w].to_string(), WindowData { alpha: self.cfg.alpha[w], triples });
@@ -331,7 +377,7 @@ impl Env {
         for w in 0..2 {
             for t in 0..3 {
                 if let Some(time) = st.win[w][t] {
-                    v.push(((ENT[TRIPLES[t].0].to_string(), format!("{}p", WIN[w]), ENT[TRIPLES[t].1].to_string()), time + self.cfg.alpha[w]));
+                    v.push(((ENT[self.triples()[t].0].to_string(), format!("{}p", WIN[w]), ENT[self.triples()[t].1].to_string()), time + self.cfg.alpha[w]));
                 }
             }
         }
@@ -380,6 +426,8 @@ struct Flags {
     derived_present: bool,
     derived_infinite: bool,
     two_window_fact: bool,
+    seed_outlived: bool,
+    listed_expired: bool,
     nontrivial: bool,
     facts: u64,
 }
@@ -449,6 +497,8 @@ fn evaluate(env: &Env, st: &St) -> Result<EvalOk, EvalErr> {
     flags.derived_expiry_changed = expected.iter().any(|(k, e)| !seeds.contains_key(k) && old.get(k).map_or(false, |o| *o > st.now && *o != *e));
     flags.rederived_after_expiry = expected.keys().any(|k| !seeds.contains_key(k) && old.get(k).map_or(false, |o| *o <= st.now));
     flags.two_window_fact = (0..3).any(|t| st.win[0][t].is_some() && st.win[1][t].is_some());
+    flags.seed_outlived = seeds.iter().any(|(k, e)| expected.get(k).map_or(false, |x| *x > *e));
+    flags.listed_expired = env.seeds(st).iter().any(|(_, e)| *e <= st.now);
     flags.nontrivial = flags.carried_alive && flags.derived_present;
     flags.facts = expected.len() as u64;
 
@@ -456,6 +506,7 @@ fn evaluate(env: &Env, st: &St) -> Result<EvalOk, EvalErr> {
         format!("ruleset={}", RULESETS[env.cfg.rs].0),
         format!("alpha={},{}", env.cfg.alpha[0], env.cfg.alpha[1]),
         format!("static={}", env.cfg.stat as u8),
+        format!("evict={}", if env.cfg.late { "late" } else { "exact" }),
         (if flags.first { "first_evaluation" } else { "later_evaluation" }).to_string(),
     ];
     if flags.carried_alive {
@@ -469,6 +520,9 @@ fn evaluate(env: &Env, st: &St) -> Result<EvalOk, EvalErr> {
     }
     if flags.new_base {
         tags.push("new_base_fact".into());
+    }
+    if flags.listed_expired {
+        tags.push("expired_fact_still_listed".into());
     }
 
     // ---- the real code
@@ -570,6 +624,8 @@ fn note_flags(out: &mut ShardOut, prefix: &str, f: &Flags) {
     c("with_derived_fact", f.derived_present);
     c("with_infinite_derived_fact", f.derived_infinite);
     c("with_same_triple_in_both_windows", f.two_window_fact);
+    c("with_listed_fact_outlived_by_its_derivation", f.seed_outlived);
+    c("with_expired_fact_still_listed", f.listed_expired);
     out.count(&format!("{}facts_compared", prefix), f.facts);
 }
 
@@ -716,7 +772,10 @@ fn bfs(env: &Env, depth: usize, out: &mut ShardOut, ctx: &Ctx, cfg_index: usize)
             }
             out.states += 1;
             out.max_depth = out.max_depth.max(p2.len() as u64);
-            frontier.push_back((st2, p2));
+            if p2.len() < depth {
+                // states at the depth bound are counted and were checked, but never expanded
+                frontier.push_back((st2, p2));
+            }
         }
     }
     out.count("bfs_configurations_completed", 1);
